@@ -126,10 +126,12 @@ func (encoding *Encoding) Validate(ctx context.Context, opts ...ValidationOption
 	for _, k := range headers {
 		v := encoding.Headers[k]
 		if err := ValidateIdentifier(k); err != nil {
-			return nil
+			return fmt.Errorf("header %q: %w", k, err)
 		}
 		if err := v.Validate(ctx); err != nil {
-			return nil
+			// an invalid header is tolerated here, but it must not end the
+			// validation of the rest of the encoding object
+			continue
 		}
 	}
 
